@@ -54,7 +54,7 @@ Proof.
 Qed.
 
 Lemma ready_init : ready pst_init [].
-Proof. unfold ready. cbn. auto. Qed.
+Proof. unfold ready. cbn. intuition auto. Qed.
 
 Lemma okb_init : okb PSection builder_init.
 Proof. split; [discriminate|]. split; [discriminate|]. intros X. discriminate. Qed.
